@@ -144,6 +144,8 @@ pub struct TypeChecker {
     pub(crate) errors: Vec<CompileError>,
     /// Track which bindings are mutable for mutation checks.
     pub(crate) mutable_bindings: HashSet<String>,
+    /// `for` loop variables: not reassignable, but elements reached through them stay assignable.
+    pub(crate) loop_var_symbols: HashSet<SymbolId>,
     /// Current function's error type for `?` operator compatibility.
     pub(crate) current_return_error_type: Option<ResolvedType>,
     /// Active trait @requires context for default method bodies.
@@ -170,6 +172,7 @@ impl TypeChecker {
             symbols: SymbolTable::new(),
             errors: Vec::new(),
             mutable_bindings: HashSet::new(),
+            loop_var_symbols: HashSet::new(),
             current_return_error_type: None,
             current_trait_requires: None,
             current_trait_name: None,
